@@ -26,6 +26,12 @@ func (f *frame) ghostsWrittenIn(li *loopInfo) map[string]bool {
 				}
 			}
 			if callee := cc.StaticCallee(); callee != nil {
+				// transitively: ghosts assigned by contracts of functions the callee reaches
+				for _, h := range f.c.modsOf(callee).list() {
+					if len(h) > 6 && h[:6] == "ghost$" {
+						out[h[6:]] = true
+					}
+				}
 				if sp := f.c.specOf(callee); sp != nil {
 					for _, gs := range sp.GhostSets {
 						out[gs.Ghost] = true
@@ -38,6 +44,36 @@ func (f *frame) ghostsWrittenIn(li *loopInfo) map[string]bool {
 					}
 				}
 			}
+		}
+	}
+	return out
+}
+
+// specGhostWrites: the ghost variables a contract may assign: by a site clause,
+// by an exit/entry ghost update, or as declared in its modifies clause.
+func specGhostWrites(sp *FuncSpec) []string {
+	seen := map[string]bool{}
+	var out []string
+	add := func(n string) {
+		if n != "" && !seen[n] {
+			seen[n] = true
+			out = append(out, n)
+		}
+	}
+	for _, s := range sp.Sites {
+		if s.Kind == "ghost" {
+			add(s.Ghost)
+		}
+	}
+	for _, s := range sp.GhostSets {
+		add(s.Ghost)
+	}
+	for _, s := range sp.GhostInits {
+		add(s.Ghost)
+	}
+	for _, m := range sp.Modifies {
+		if len(m) > 6 && m[:6] == "ghost " {
+			add(m[6:])
 		}
 	}
 	return out
